@@ -9,7 +9,7 @@
 (* (WfParser = L2 parser, WfEval = L1 semantics, WfJson) prescribes.       *)
 (* Env: SCHEMES, CTXS, TRACE (ndjson files).                               *)
 (***************************************************************************)
-EXTENDS WfParser, WfEval, WfJson, Json, IOUtils
+EXTENDS WfParser, WfEval, WfJson, WfText, Json, IOUtils
 
 Schs == ndJsonDeserialize(IOEnv.SCHEMES)
 Ctxs == ndJsonDeserialize(IOEnv.CTXS)
@@ -99,6 +99,28 @@ CheckValue(e) ==
                /\ Chk(run.res.t = x.t /\ run.res = x,
                       <<"value on ctx", run.ctx, "expected", x, "observed", run.res>>)
 
+(* the TEXT of a filter or value expression (code points), judged by the character-level parser: white space *)
+(* anywhere or nowhere, glued keywords, corrupted characters.  "unspec" verdicts are not judged.            *)
+CheckText(e) ==
+  LET sch == Schs[e.sch]
+      r == IF e.value THEN ParseValueText(e.chars, sch, e.max, e.star, sch.idents)
+           ELSE ParseText(e.chars, sch, e.max, e.star, sch.idents)
+      reg == IF r.v = "yes" THEN 11 ELSE IF r.v = "no" THEN 12 ELSE 13
+  IN /\ TLCSet(reg, TLCGet(reg) + 1)           \* verdict statistics (vacuity control): yes / no / not judged
+     /\ Chk(e.out # "panic", "the parser panicked on the text")
+     /\ r.v # "unspec" =>
+          /\ Chk((r.v = "yes") = e.ok, <<"verdict on text: spec says", r.v, "observed ok =", e.ok>>)
+          /\ (r.v = "yes" /\ e.ok) =>
+               /\ Chk((IF e.value THEN ValueAstJson(r.node) ELSE AstJson(r.node)) = e.ast,
+                      <<"ast json of the text, expected", IF e.value THEN ValueAstJson(r.node) ELSE AstJson(r.node)>>)
+               /\ \A i \in 1..Len(e.runs) :
+                    LET run == e.runs[i] IN
+                    Chk(run.out = "ok" /\ run.res = EvalFilter(r.node, Ctxs[run.ctx], sch),
+                        <<"result on ctx", run.ctx, "expected", EvalFilter(r.node, Ctxs[run.ctx], sch), "observed", run.out, run.res>>)
+               /\ \A i \in 1..Len(e.vruns) :
+                    LET run == e.vruns[i] x == EvalValue(r.node, Ctxs[run.ctx], sch) IN
+                    Chk(run.out = "ok" /\ run.res.t = x.t /\ run.res = x, <<"value on ctx", run.ctx, "expected", x, "observed", run.res>>)
+
 (* C07: alias / white-space variants of one token sequence, and a structurally different partner *)
 CheckCanon(e) ==
   LET sch == Schs[e.sch]
@@ -133,11 +155,12 @@ CheckReLimit(e) ==
   /\ \A i \in 1..(Len(e.res) - 1) : Chk(e.res[i].ok => e.res[i + 1].ok, <<"size limit not monotone at", i>>)
   /\ Chk(e.res[Len(e.res)].ok, "valid pattern rejected under the default size limit")
 
-Init == l = 1 /\ nbad = 0
+Init == l = 1 /\ nbad = 0 /\ TLCSet(11, 0) /\ TLCSet(12, 0) /\ TLCSet(13, 0)
 Next == /\ l <= Len(Rec)
         /\ LET e == Rec[l]
                good == IF e.ev = "filter" THEN CheckFilter(e)
                        ELSE IF e.ev = "value" THEN CheckValue(e)
+                       ELSE IF e.ev = "text" THEN CheckText(e)
                        ELSE IF e.ev = "canon" THEN CheckCanon(e)
                        ELSE IF e.ev = "relimit" THEN CheckReLimit(e)
                        ELSE Chk(FALSE, "unknown event")
@@ -146,6 +169,7 @@ Next == /\ l <= Len(Rec)
 Spec == Init /\ [][Next]_vars
 
 (* every event consumed (a shorter diameter means the spec could not even evaluate an event) *)
-Accepted == IF TLCGet("stats").diameter = Len(Rec) + 1 THEN PrintT(<<"TRACE-CONSUMED", Len(Rec)>>)
+Accepted == IF TLCGet("stats").diameter = Len(Rec) + 1
+            THEN PrintT(<<"TRACE-CONSUMED", Len(Rec)>>) /\ PrintT(<<"TEXT-VERDICTS", TLCGet(11), TLCGet(12), TLCGet(13)>>)
             ELSE (PrintT(<<"TRACE-STUCK-AT", TLCGet("stats").diameter, "of", Len(Rec)>>) /\ FALSE)
 =============================================================================
